@@ -44,6 +44,44 @@ fn main() {
             }
             std::process::exit(run_check(p, tier))
         }
+        "gen-selftest" => {
+            // development aid: do generated programs parse?
+            let n: usize = args.get(2).and_then(|s| s.parse().ok()).unwrap_or(2000);
+            let mut bad = 0;
+            let mut tags = std::collections::BTreeMap::new();
+            for i in 0..n {
+                let bytes = vp::gen::grid::byte_stream(&format!("selftest{i}"), 2048);
+                let mut c = vp::choices::Choices::new(&bytes);
+                let p = vp::gen::prog::gen_prog(&mut c, &vp::gen::prog::ProgSpace::default());
+                let ro = vp::gen::prog::RenderOpts {
+                    wild: i % 4,
+                    comment_p: if i % 3 == 0 { 4 } else { 0 },
+                    in_stmt_p: if i % 6 == 0 { 3 } else { 0 },
+                    ..Default::default()
+                };
+                let r = vp::gen::prog::render(&p, &mut c, &ro);
+                for t in &p.tags {
+                    *tags.entry(*t).or_insert(0usize) += 1;
+                }
+                let ed = if p.only_2015 { "2015" } else if p.min_edition == "2015" { "2021" } else { p.min_edition };
+                if !vp::parse::parses(&r.text, ed) {
+                    bad += 1;
+                    if bad <= 400 {
+                        let d = vp::parse::LAST_DIAGS.lock().unwrap().first().cloned().unwrap_or_default();
+                        let lo: usize = d.split("BytePos(").nth(1).and_then(|x| x.split(')').next()).and_then(|x| x.parse().ok()).unwrap_or(0);
+                        let a = lo.saturating_sub(70);
+                        let b = (lo + 30).min(r.text.len());
+                        let ctx: String = r.text.char_indices().filter(|(i, _)| *i >= a && *i < b).map(|(_, c)| if c == '\n' { ' ' } else { c }).collect();
+                        println!("---- FAIL {i}: {} || ...{}...", d.split(" @ ").next().unwrap_or(""), ctx);
+                    }
+                }
+                if i < 3 {
+                    println!("==== sample {i}\n{}", r.text);
+                }
+            }
+            println!("{bad} of {n} do not parse");
+            println!("{tags:?}");
+        }
         "replay" => {
             let p = vp::props::by_id(args.get(2).map(|s| s.as_str()).unwrap_or("")).unwrap_or_else(|| usage());
             let f = args.get(3).unwrap_or_else(|| usage());
